@@ -644,11 +644,19 @@ func checkRegistry(rc *RegCase, res *vprop.Result) {
 		}
 		switch {
 		case refuse && err == nil:
+			// Signature: does the wrong answer depend on the history? The same plugin is offered to a fresh registry;
+			// if that one refuses it, the acceptance above is owed to the earlier calls of the case.
+			freshRefuses := func() (refused bool) {
+				defer func() { _ = recover() }()
+				return registry.New().Register(&fakePlugin{name: c.name, req: regObject(c.req, c.reqPtr), resp: regObject(c.resp, c.respPtr)}) != nil
+			}()
 			cls := "top-level"
 			switch {
-			case sharedRefused:
+			case freshRefuses && sharedRefused:
 				// the same offending struct type was part of an earlier registration that had to be refused
 				cls = "type-shared-with-earlier-refused-registration"
+			case freshRefuses:
+				cls = "depends-on-earlier-registrations"
 			case st.offenderBehindNil:
 				cls = "behind-nil-pointer"
 			case st.offenderDepth >= 3:
